@@ -277,8 +277,12 @@ impl Hist for C18 {
             if !prefix.contains(&Op::DropB) {
                 v.push(Op::DropB);
             }
+            // a member bar given a terminal target of its own (which unlinks it from the MultiProgress)
+            if !prefix.contains(&Op::SetTarget) {
+                v.push(Op::SetTarget);
+            }
             // inserting relative to a bar that is no longer a member is a caller error
-            if !prefix.contains(&Op::MpRemoveA) && !prefix.contains(&Op::DropA) {
+            if !prefix.contains(&Op::MpRemoveA) && !prefix.contains(&Op::DropA) && !prefix.contains(&Op::SetTarget) {
                 v.extend([Op::MpInsertAfterA, Op::MpInsertBeforeA]);
             }
         } else {
